@@ -47,17 +47,23 @@ type j5sDecl struct {
 	name string
 }
 
-func randJ5sSource(r *vh.Rand, pkg string) string {
+func randJ5sSource(r *vh.Rand, pkg string, force bool) string {
 	var decls []j5sDecl
 	nEnum := r.Range(1, 2)
 	for i := 0; i < nEnum; i++ {
 		decls = append(decls, j5sDecl{"enum", fmt.Sprintf("Mode%d", i)})
 	}
 	nObj := r.Range(2, 4)
+	if force {
+		nObj = 4
+	}
 	for i := 0; i < nObj; i++ {
 		decls = append(decls, j5sDecl{"object", fmt.Sprintf("Obj%d", i)})
 	}
 	nOne := r.Range(0, 2)
+	if force {
+		nOne = 2
+	}
 	for i := 0; i < nOne; i++ {
 		decls = append(decls, j5sDecl{"oneof", fmt.Sprintf("Pick%d", i)})
 	}
@@ -148,6 +154,34 @@ func randJ5sSource(r *vh.Rand, pkg string) string {
 			sb.WriteString("}\n\n")
 		case "object":
 			fmt.Fprintf(&sb, "object %s {\n", d.name)
+			if force {
+				// the first package of every run: a flatten chain Obj0 > Obj1 > Obj2, every scalar spelling
+				// (spread over the objects), arrays and maps of objects / oneofs / enums
+				var forced []string
+				switch d.name {
+				case "Obj0":
+					forced = []string{"object:Obj1|flatten", "array:object:Obj3", "map:oneof:Pick0", "oneof:Pick1", "enum:Mode0"}
+				case "Obj1":
+					forced = []string{"object:Obj2|flatten", "array:enum:Mode0", "map:object:Obj3", "array:oneof:Pick1"}
+				case "Obj2":
+					forced = append(forced, j5sScalars[:8]...)
+				case "Obj3":
+					forced = append(forced, j5sScalars[8:]...)
+				}
+				for i, f := range forced {
+					nm := names(1)[0]
+					if strings.HasSuffix(f, "|flatten") {
+						flattened[strings.TrimPrefix(strings.TrimSuffix(f, "|flatten"), "object:")] = true
+						fmt.Fprintf(&sb, "\tfield %s %s {\n\t\tflatten = true\n\t}\n", nm, strings.TrimSuffix(f, "|flatten"))
+						continue
+					}
+					mark := ""
+					if i%3 == 1 && !strings.Contains(f, "object") && !strings.Contains(f, "oneof") && !strings.HasPrefix(f, "array") && !strings.HasPrefix(f, "map") && f != "any" {
+						mark = "? "
+					}
+					fmt.Fprintf(&sb, "\tfield %s %s%s\n", nm, mark, f)
+				}
+			}
 			for _, n := range names(r.Range(1, 7)) {
 				ty, attrs := fieldTy(d.name)
 				mark := ""
@@ -180,7 +214,7 @@ func randJ5sSource(r *vh.Rand, pkg string) string {
 
 func randJ5sFile(r *vh.Rand, idx int) (files []protoreflect.FileDescriptor, src string, err error) {
 	pkg := fmt.Sprintf("rndj%d.v1", idx)
-	src = randJ5sSource(r, pkg)
+	src = randJ5sSource(r, pkg, idx == 0)
 	defer func() {
 		if rec := recover(); rec != nil {
 			err = fmt.Errorf("compiler panic: %v", rec)
